@@ -1,0 +1,135 @@
+//go:build verif
+
+// Contracts for contract-based deductive verification (checked by /verif/govc).
+// This file is comment-only and compiled only with the build tag "verif".
+
+package main
+
+// ---- strings.CutSuffix (library, uninterpreted): the facts the proofs rely on ------------------
+// ASSUMPTION (trusted, true of the Go standard library): CutSuffix(s, x) reports found exactly when
+// s = before + x, and then returns that before.
+//@ pure cutFound(s string, x string) bool = strings.CutSuffix(s, x).1
+//@ pure cutBefore(s string, x string) string = strings.CutSuffix(s, x).0
+//@ pure cutSuffixOK() bool = (forall s string, x string :: cutFound(s + x, x)) && (forall s string, x string :: cutFound(s, x) ==> s == cutBefore(s, x) + x)
+
+// Annotation key forms for container name n.
+//@ pure keyC(p string, n string) string = p + (annotationSuffix + "/" + n)
+//@ pure keyP(p string) string = p + annotationSuffix
+// ASSUMPTION on inputs (DESIGN C18 "not covered"): the container name is such that no key parses under both
+// suffixes (true for every DNS-label container name: it cannot contain ".memtierd.nri.io").
+//@ pure nameOK(n string) bool = forall k string :: !(cutFound(k, annotationSuffix + "/" + n) && cutFound(k, annotationSuffix))
+
+// The effective value of annotation prefix p for container n in annotation map ann.
+//@ pure effIn(ann map[string]string, p string, n string) bool = keyC(p, n) in ann || keyP(p) in ann
+//@ pure effVal(ann map[string]string, p string, n string) string = keyC(p, n) in ann ? ann[keyC(p, n)] : ann[keyP(p)]
+
+//@ func associate safety=C14
+//@   requires m != nil
+//@   modifies m[*]
+//@   ensures[C18] (override || !old(key in m)) ==> result && dom(m) == upd(old(dom(m)), key, true) && vals(m) == upd(old(vals(m)), key, value)
+//@   ensures[C18] !(override || !old(key in m)) ==> !result && dom(m) == old(dom(m)) && vals(m) == old(vals(m))
+
+//@ func effectiveAnnotations safety=C14
+//@   requires ctr != nil
+//@   requires cutSuffixOK() && nameOK(ctr.Name)
+//@   modifies nothing
+//@   let ann = pod.GetAnnotations()
+//@   ensures[C18] fresh(result)
+//@   ensures[C18] forall p string :: effIn(ann, p, ctr.Name) ==> p in result && result[p] == effVal(ann, p, ctr.Name)
+//@   ensures[C18] forall p string :: p in result ==> effIn(ann, p, ctr.Name)
+// ($t0 is the local effAnn; the engine resolves the name effAnn to nil at the loop header, so the register is used)
+//@ loop 0 in effectiveAnnotations at "range pod.GetAnnotations()"
+//@   modifies $t0[*]
+//@   invariant[C18] forall k string :: seen(k) ==> k in ann
+//@   invariant[C18] forall p string :: seen(keyC(p, ctr.Name)) ==> p in $t0 && $t0[p] == ann[keyC(p, ctr.Name)]
+//@   invariant[C18] forall p string :: !seen(keyC(p, ctr.Name)) && seen(keyP(p)) ==> p in $t0 && $t0[p] == ann[keyP(p)]
+//@   invariant[C18] forall p string :: p in $t0 ==> seen(keyC(p, ctr.Name)) || seen(keyP(p))
+
+// qosClass: first configured class of that name (a copy), nil if there is none; an error without configuration.
+// (the index of the exists is shifted by one so that the solvers' triggers match the loop's rangeindex+1)
+//@ pure hasClass(cfg *pluginConfig, name string) bool = cfg != nil && exists j int :: -1 <= j && j + 1 < len(cfg.Classes) && cfg.Classes[j + 1].Name == name
+//@ func (*plugin).qosClass safety=C14
+//@   requires p != nil
+//@   modifies nothing
+//@   ensures[C14,C18] (result0 != nil) == hasClass(p.config, className)
+//@   ensures[C14] p.config == nil ==> result0 == nil && result1 != nil
+//@   ensures[C14] p.config != nil ==> result1 == nil
+//@   ensures[C14] result0 != nil ==> fresh(result0) && result0.Name == className
+//@   ensures[C18] result0 != nil ==> exists j int :: -1 <= j && j + 1 < len(p.config.Classes) && p.config.Classes[j + 1].Name == className &&
+//@        result0.AllowSwap == p.config.Classes[j + 1].AllowSwap && result0.MemtierdConfig == p.config.Classes[j + 1].MemtierdConfig
+//@   ensures[C18] result0 == nil && p.config != nil ==> forall j int :: 0 <= j && j < len(p.config.Classes) ==> p.config.Classes[j].Name != className
+//@ loop 0 in (*plugin).qosClass at "range p.config.Classes"
+//@   modifies nothing
+//@   invariant -1 <= rangeindex && rangeindex < len(p.config.Classes)
+//@   invariant forall j int :: 0 <= j && j <= rangeindex ==> p.config.Classes[j].Name != className
+//@   invariant forall j int :: -1 <= j && j + 1 <= rangeindex ==> p.config.Classes[j + 1].Name != className
+
+// CreateContainer: an explicitly annotated memory.swap.max / memory.high (container-specific, else pod-wide) is
+// what the adjustment carries, whatever the map iteration order and whether the class was seen before or after;
+// the only other entry possible is a class-derived memory.swap.max ("max" or "0").
+// A plugin without configuration (p.config == nil) is allowed.
+//@ func (*plugin).CreateContainer safety=C14
+//@   requires p != nil && ctr != nil
+//@   requires cutSuffixOK() && nameOK(ctr.Name)
+//@   # the handler changes nothing that existed before the call (plugin state, request messages): a refused request
+//@   # leaves the plugin as it was
+//@   modifies nothing
+//@   let ann = pod.GetAnnotations()
+//@   ensures[C18] err == nil ==> forall q string :: (q == "memory.swap.max" || q == "memory.high") && effIn(ann, q, ctr.Name) ==>
+//@        result0 != nil && result0.Linux != nil && result0.Linux.Resources != nil &&
+//@        q in result0.Linux.Resources.Unified && result0.Linux.Resources.Unified[q] == effVal(ann, q, ctr.Name)
+//@   # (c stands for "class": a literal there would be constant-folded with the suffix into a new, unrelated literal)
+//@   ensures[C18] err == nil && result0 != nil ==> forall q string, c string :: c == "class" && q in result0.Linux.Resources.Unified ==>
+//@        ((q == "memory.swap.max" || q == "memory.high") && effIn(ann, q, ctr.Name)) ||
+//@        (q == "memory.swap.max" && effIn(ann, c, ctr.Name) && (result0.Linux.Resources.Unified[q] == "max" || result0.Linux.Resources.Unified[q] == "0"))
+//@   ensures[C14] err != nil ==> result0 == nil
+//@   # whether the request is refused does not depend on the iteration order either: it is refused exactly when the
+//@   # effective class is non-empty and not configured
+//@   ensures[C14,C18] forall c string :: c == "class" ==>
+//@        ((err != nil) == (effIn(ann, c, ctr.Name) && effVal(ann, c, ctr.Name) != "" && !hasClass(p.config, effVal(ann, c, ctr.Name))))
+//@ loop 0 in (*plugin).CreateContainer at "range effectiveAnnotations(pod, ctr)"
+//@   modifies $t1[*]
+//@   invariant[C18] seen("class") ==> $t2["class"] == "" || hasClass(p.config, $t2["class"])
+//@   invariant[C18] forall q string :: seen(q) ==> q in $t2
+//@   invariant[C18] forall q string :: seen(q) && (q == "memory.swap.max" || q == "memory.high") ==> q in $t1 && $t1[q] == $t2[q]
+//@   invariant[C18] forall q string :: q in $t1 ==> ((q == "memory.swap.max" || q == "memory.high") && seen(q)) ||
+//@        (q == "memory.swap.max" && seen("class") && ($t1[q] == "max" || $t1[q] == "0"))
+//@ assert[C18] in (*plugin).CreateContainer at "if len(unified) == 0": forall q string :: q in $t2 ==> effIn(ann, q, ctr.Name)
+
+// ---- C14: StartContainer / StopContainer up to (not including) launching and killing processes ------
+
+// Launching memtierd is outside the verified part.
+//@ assume-contract (*memtierdEnv).startMemtierd
+//@   requires me != nil
+//@   modifies me.cmd
+
+// The cgroup directory walk (filepath.WalkDir with a callback) is outside the verified subset.
+// ASSUMPTION: WalkDir changes nothing of the tracked heap. Its callback here only writes the local variable
+// fullCgroupsPath, so the string getFullCgroupsPath returns is deliberately left unspecified (no ensures on
+// result0 may ever be added on top of this assumption). Without it the engine havocs the whole heap at the call and
+// reports the captured parameter ctr as possibly nil at the log statement after the walk (false alarm).
+//@ assume-contract path/filepath.WalkDir
+//@   modifies nothing
+// NRI message: ctr.Linux is an optional sub-message (may be nil).
+//@ func (*plugin).getFullCgroupsPath safety=C14
+//@   requires p != nil && ctr != nil
+//@   modifies nothing
+
+//@ func newMemtierdEnv safety=C14
+//@   ensures[C14] result1 == nil ==> result0 != nil
+//@ loop 0 in newMemtierdEnv at "range replace"
+
+// p.ctrMemtierdEnv is allocated by main() before the plugin is registered.
+//@ func (*plugin).StartContainer safety=C14
+//@   requires p != nil && ctr != nil && p.ctrMemtierdEnv != nil
+//@   requires cutSuffixOK() && nameOK(ctr.Name)
+//@   # a refused request leaves the plugin's table of running memtierd instances as it was
+//@   ensures[C14] result != nil ==> dom(p.ctrMemtierdEnv) == old(dom(p.ctrMemtierdEnv)) && vals(p.ctrMemtierdEnv) == old(vals(p.ctrMemtierdEnv))
+//@   ensures[C14] p.config == nil ==> dom(p.ctrMemtierdEnv) == old(dom(p.ctrMemtierdEnv)) && vals(p.ctrMemtierdEnv) == old(vals(p.ctrMemtierdEnv))
+
+// StopContainer cannot be put under contract: the engine rejects the whole function because of the `go func()`
+// statement that reaps the killed process ("unsupported: concurrency instruction *ssa.Go", main.go:315). The contract
+// would be:   func (*plugin).StopContainer safety=C14 / requires p != nil / ensures result1 == nil
+
+// Annotations addressed to another container c2 are different map keys than the two consulted for c (same prefix).
+//@ lemma[C18] OtherContainerKeysDistinct(q string, c string, c2 string): c2 != c ==> keyC(q, c2) != keyC(q, c) && keyC(q, c2) != keyP(q)
